@@ -998,6 +998,15 @@ def to_coq(schemas, repo):
             if seq is None:
                 continue
             L.append("Definition %s_%s : list (string * string) := %s." % (nm, s["cls"], coq_list("(%s, %s)" % (qs(a), qs(b)) for a, b in seq)))
+    keys = []
+    for sc_ in schemas:
+        for k, a, p_, st in sc_["reader"]["cases"]:
+            if a[0] == "sub":
+                for lbl, _ in a[3]:
+                    km = (a[2], lbl.lstrip("."))
+                    if km not in keys:
+                        keys.append(km)
+    L.append("Definition key_members : list (string * string) := %s." % coq_list("(%s, %s)" % (qs(a), qs(b)) for a, b in keys))
     L.append("Definition all_serial : list (string * list (string * string) * list (string * string)) := %s." %
              coq_list("(%s, ser_%s, des_%s)" % (qs(s["cls"]), s["cls"], s["cls"]) for s in schemas if s["ser"] is not None and s["des"] is not None))
     return "\n".join(L) + "\n"
